@@ -285,6 +285,9 @@ class OverrideSpec:
             if lookups and lookups[0][3] is not None:
                 ex.prove('C07:ShortOp.eval:operator-applied-to-variable-then-operand', ['C07', 'C04'],
                          p[3] == lookups[0][3])
+            if p[1] == 'binop':
+                # Python semantics of x += v: the in-place operator (a list is extended, not rebuilt)
+                ex.prove('C07:ShortOp.eval:compound-assignment-applies-the-in-place-operator', ['C07', 'C12'], p[5] is True)
 
     # BinOp --------------------------------------------------------------------------------
     def spec_BinOp(self, ex, ctx, outcome):
@@ -556,7 +559,7 @@ def tasks(engine):
                 out.extend(split_cases(make, fi.key, ['+=', '-=', '*=', '/='], lambda ex, ctx: fld(ex, ctx, 'op')))
             else:
                 out.append(make())
-    out.append(closure_task(engine))
+    add_task(engine, out, lambda: closure_task(engine))
     return out
 
 
